@@ -20,7 +20,7 @@ PROPS = {
                 "request line; non-trivial = the read succeeds or fails with a payload-carrying error",
     },
     "C02": {"errkinds": False, "streams": [S("parse", 3000, 20000), S("acc", 1, 1), S("table", 600, 4000), S("ehdr", 8, 200), S("identstream", 1, 2), S("streamhdr", 1, 2), S("symver", 60, 500)],
-            "projection": "full", "also_tags": ["C05", "C07", "C10", "C13"]},
+            "projection": "full", "also_tags": ["C05", "C07", "C10", "C13"], "extra_props": ["C02Acc"]},
     "C09": {"errkinds": False, "streams": [S("table", 2000, 8000), S("streamcache", 2, 6), S("streamfault", 3, 20)], "projection": "full", "also_tags": ["C17"]},
     "C15": {"streams": [S("strtab", 2000, 20000), S("utf8", 500, 5000), S("stream", 20, 150), S("streamcache", 2, 6)], "projection": "full", "also_tags": ["C07", "C20"]},
     "C10": {"errkinds": ["BadMagic", "UnsupportedElfClass", "UnsupportedVersion", "UnsupportedElfEndianness"], "streams": [S("ident", 800, 4000), S("identstream", 1, 2), S("file", 60, 400)], "projection": "full"},
@@ -115,7 +115,7 @@ LEVEL_TEXT["C02"] = {
             "values (each field in its width and the file's byte order, one after the other) parses back to the record built from exactly "
             "those values and consumes exactly the structure's size. The derived accessors (is_undefined, st_symtype, st_bind, st_vis, version index/"
             "local/global/hidden, d_val/d_ptr) are the translations of the Rust bodies, regenerated on every run; which fields each reads is part "
-            "of the translation, and the kernel evaluates each on every byte / every halfword against the ABI macro (st_byte_table, halfword_table, "
+            "of the translation, and the kernel evaluates each on every byte / every halfword against the ABI macro (st_byte_table, undef_table, versym_table, "
             "decide +kernel over 256 and 65536 values), so the split theorems hold for every record and survive any semantically equal rewrite. "
             "The translator and interpreter are validated against the compiled parsers on ABI-encoded field values; the acc stream varies every field of a symbol.",
     "note": COMMON_NOTE + " Reference layouts in Ref/AbiLayouts.lean are transcribed by hand from the gABI/GNU documents.",
